@@ -66,6 +66,11 @@ def case_circle(case):
         if abs(math.hypot(u, w) - s) > 1e-9 * s or abs(u - eu) > 1e-9 * s or abs(w - ew) > 1e-9 * s:
             v.append({"sub": "decomposition", "sig": "decomposition", "msg": "compute_wind_fields(%g, %d) = (%.6g, %.6g), convention gives (%.6g, %.6g)" % (s, wd, u, w, eu, ew)})
         cfg = make_cfg(case, wd)
+        if wd % 9 == 0:
+            # the same configuration in dispersion mode first (a user comparing both modes in one session)
+            cfg_d = make_cfg(case, wd)
+            cfg_d.solver.footprint = False
+            run_bldfm_single(cfg_d, cfg_d.towers[0])
         r = run_bldfm_single(cfg, cfg.towers[0])
         X, Y = np.asarray(r["grid"][0]), np.asarray(r["grid"][1])
         f = np.asarray(r["flx"], dtype=float)
@@ -94,6 +99,53 @@ def case_circle(case):
     return {"v": v[:5], "nt": 360, "n": 360, "obs": {"worst_bearing_error_deg": round(worst, 2), "directions": 360}}
 
 
+def _bearing_error(r, xmax, ymax, wd):
+    X, Y = np.asarray(r["grid"][0]), np.asarray(r["grid"][1])
+    f = np.asarray(r["flx"], dtype=float)
+    tx, ty = r["tower_xy"]
+    Rd = 0.95 * min(xmax, ymax) / 2
+    rr2 = (X - tx) ** 2 + (Y - ty) ** 2
+    wgt = f * np.exp(-rr2 / (0.45 * Rd) ** 2) * (rr2 <= Rd**2)
+    cx, cy = (wgt * (X - tx)).sum(), (wgt * (Y - ty)).sum()
+    b = math.degrees(math.atan2(cx, cy)) % 360
+    return b, abs((b - wd + 180) % 360 - 180)
+
+
+def case_series(case):
+    """the same convention through the time-series / multi-tower / parallel drivers, with the met series written the way a
+    YAML file gives it: whole numbers as INTEGERS (wind_speed: 3, wind_dir: [0, 25, 50, ...])"""
+    import bldfm.interface as itf
+    from bldfm.config_parser import parse_config_dict
+
+    nx, ny, xmax, ymax = GRIDS[case["grid"]]
+    rlat, rlon = ORIGINS[case["origin"]]
+    lat, lon = geo.place(rlat, rlon, xmax / 2, ymax / 2)
+    dirs = list(range(case["start"], 360, 25))
+    met = {"ustar": 0.4, "mol": case["mol"], "wind_speed": 3 if case["ints"] else 3.0, "wind_dir": dirs if case["ints"] else [float(d) for d in dirs]}
+    if case["mol_int"]:
+        met["mol"] = int(case["mol"])
+    cfg = parse_config_dict({
+        "domain": {"nx": nx, "ny": ny, "xmax": xmax, "ymax": ymax, "nz": 8, "modes": [nx, ny], "ref_lat": rlat, "ref_lon": rlon},
+        "towers": [{"name": "mast", "lat": lat, "lon": lon, "z_m": 5 if case["ints"] else 5.0}],
+        "met": met, "solver": {"closure": case["closure"], "footprint": True, "precision": "double"},
+    })
+    v = []
+    worst = 0.0
+    runs = {"timeseries": itf.run_bldfm_timeseries(cfg, cfg.towers[0]), "multitower": itf.run_bldfm_multitower(cfg)["mast"]}
+    if case.get("parallel"):
+        for strat in ("towers", "time"):
+            runs["parallel-" + strat] = itf.run_bldfm_parallel(cfg, max_workers=2, parallel_over=strat)["mast"]
+    for how, res in runs.items():
+        for wd, r in zip(dirs, res):
+            b, e = _bearing_error(r, xmax, ymax, wd)
+            worst = max(worst, e)
+            if e > TOL_DEG:
+                v.append({"sub": "bearing-series", "sig": "bearing-series/%s/%s" % (how.split("-")[0], "integer-met" if case["ints"] else "float-met"),
+                          "msg": "%s, step with wind_dir=%r (%s met values): footprint centre of mass at bearing %.1f (error %.1f deg > %g); case %s" % (how, wd, "integer" if case["ints"] else "float", b, e, TOL_DEG, core.canon(case))})
+                break
+    return {"v": v[:4], "nt": len(dirs) * len(runs), "key": core.canon(case), "n": len(dirs) * len(runs), "obs": {"worst_bearing_error_deg": round(worst, 2), "drivers": list(runs)}}
+
+
 def run(ctx):
     core.warm_numba()
     ctx.rule = (
@@ -101,4 +153,7 @@ def run(ctx):
         "every (configuration, direction) pair is a distinct non-trivial run; evaluations counts single runs"
     )
     res = ctx.run_cases(case_circle, configs(ctx.tier), sub="circle", chunksize=1)
+    sc = [{"grid": g, "origin": o, "closure": c, "mol": L, "ints": ints, "mol_int": ints and L != 1e9, "start": st, "parallel": (g == "square" and ints)}
+          for (g, o, c, L, st), ints in itertools.product([("square", "NE", "MOST", -100.0, 0), ("oblong", "greenwich", "MOSTM", 50.0, 7), ("aniso", "SW", "CONSTANT", 1e9, 13)], (True, False))]
+    res += ctx.run_cases(case_series, sc, sub="series-drivers", chunksize=1)
     ctx.cov["worst_bearing_error_deg"] = max([r.get("obs", {}).get("worst_bearing_error_deg", 0) for r in res] + [0])
